@@ -4,7 +4,7 @@
    usize decimal printing. *)
 From Matreex Require Export Model.Obs Model.Ops.
 
-Definition text := list Z.
+Notation text := (list Z) (only parsing).
 Definition ch_nl : Z := 10.
 Definition ch_cr : Z := 13.
 Definition ch_sp : Z := 32.
